@@ -32,10 +32,33 @@ pub struct OriginSpec {
     pub scheme: &'static str,
     pub host: String,
     pub port: Option<u16>,
+    /// Some(certificate fingerprint): the caller is an Android application whose asset link names
+    /// `host`; the origin presented to the client is Origin::Android, not a URL
+    pub android: Option<[u8; 32]>,
 }
 
 impl OriginSpec {
     pub fn url(&self) -> String {
+        if let Some(fp) = &self.android {
+            return format!("android-app({}) asset-link-host={}", crate::oracle::b64url(fp), self.host);
+        }
+        match self.port {
+            Some(p) => format!("{}://{}:{}", self.scheme, self.host, p),
+            None => format!("{}://{}", self.scheme, self.host),
+        }
+    }
+    /// The origin value handed to the client.
+    pub fn to_origin<'a>(&self, u: &'a url::Url) -> passkey_client::Origin<'a> {
+        match &self.android {
+            Some(fp) => {
+                let text = fp.iter().map(|b| format!("{b:02X}")).collect::<Vec<_>>().join(":");
+                let link = passkey_client::UnverifiedAssetLink::new("com.example.app", &text, self.host.clone(), url("https://example.com/.well-known/assetlinks.json")).expect("well-formed asset link");
+                passkey_client::Origin::Android(link)
+            }
+            None => passkey_client::Origin::from(u),
+        }
+    }
+    fn web_url(&self) -> String {
         match self.port {
             Some(p) => format!("{}://{}:{}", self.scheme, self.host, p),
             None => format!("{}://{}", self.scheme, self.host),
@@ -43,6 +66,9 @@ impl OriginSpec {
     }
     /// serialisation of the origin (scheme://host[:port], default port dropped), computed here
     pub fn expected(&self) -> String {
+        if let Some(fp) = &self.android {
+            return format!("android:apk-key-hash:{}", crate::oracle::b64url(fp));
+        }
         let scheme = self.scheme.to_ascii_lowercase();
         let default = match scheme.as_str() {
             "https" => Some(443),
@@ -453,17 +479,18 @@ impl World {
                 opts.public_key.extensions = ext;
                 rb = r1;
                 rbh = r2;
-                let u = url(&r.origin.url());
+                let uu = url(&r.origin.web_url());
+                let u = r.origin.to_origin(&uu);
                 let c = &mut self.client;
                 Outcome::Reg(match &r.cd {
-                    CdMode::Default => block_on(c.register(&u, opts, DefaultClientData)),
-                    CdMode::ExtraStruct(e) => block_on(c.register(&u, opts, DefaultClientDataWithExtra(e.clone()))),
+                    CdMode::Default => block_on(c.register(u, opts, DefaultClientData)),
+                    CdMode::ExtraStruct(e) => block_on(c.register(u, opts, DefaultClientDataWithExtra(e.clone()))),
                     CdMode::ExtraMap(m) => {
                         let map: IndexMap<String, Value> = m.iter().cloned().collect();
-                        block_on(c.register(&u, opts, DefaultClientDataWithExtra(map)))
+                        block_on(c.register(u, opts, DefaultClientDataWithExtra(map)))
                     }
-                    CdMode::CustomHash(h) => block_on(c.register(&u, opts, DefaultClientDataWithCustomHash(h.clone()))),
-                    CdMode::OptVec(o) => block_on(c.register(&u, opts, o.clone())),
+                    CdMode::CustomHash(h) => block_on(c.register(u, opts, DefaultClientDataWithCustomHash(h.clone()))),
+                    CdMode::OptVec(o) => block_on(c.register(u, opts, o.clone())),
                 })
             }
             Op::Authenticate(a) => {
@@ -486,17 +513,18 @@ impl World {
                 opts.public_key.extensions = ext;
                 rb = r1;
                 rbh = r2;
-                let u = url(&a.origin.url());
+                let uu = url(&a.origin.web_url());
+                let u = a.origin.to_origin(&uu);
                 let c = &mut self.client;
                 Outcome::Auth(match &a.cd {
-                    CdMode::Default => block_on(c.authenticate(&u, opts, DefaultClientData)),
-                    CdMode::ExtraStruct(e) => block_on(c.authenticate(&u, opts, DefaultClientDataWithExtra(e.clone()))),
+                    CdMode::Default => block_on(c.authenticate(u, opts, DefaultClientData)),
+                    CdMode::ExtraStruct(e) => block_on(c.authenticate(u, opts, DefaultClientDataWithExtra(e.clone()))),
                     CdMode::ExtraMap(m) => {
                         let map: IndexMap<String, Value> = m.iter().cloned().collect();
-                        block_on(c.authenticate(&u, opts, DefaultClientDataWithExtra(map)))
+                        block_on(c.authenticate(u, opts, DefaultClientDataWithExtra(map)))
                     }
-                    CdMode::CustomHash(h) => block_on(c.authenticate(&u, opts, DefaultClientDataWithCustomHash(h.clone()))),
-                    CdMode::OptVec(o) => block_on(c.authenticate(&u, opts, o.clone())),
+                    CdMode::CustomHash(h) => block_on(c.authenticate(u, opts, DefaultClientDataWithCustomHash(h.clone()))),
+                    CdMode::OptVec(o) => block_on(c.authenticate(u, opts, o.clone())),
                 })
             }
             Op::Make(m) => {
@@ -631,7 +659,15 @@ pub fn gen_origin(rng: &mut Rng) -> (OriginSpec, Option<String>) {
         1 => Some(rp.to_string()),
         _ => Some(host.clone()),
     };
-    (OriginSpec { scheme: "https", host, port }, rp_id)
+    // one caller in eight is an Android application (no port; the asset-link host plays the origin's role)
+    let android = if rng.chance(1, 8) {
+        let mut fp = [0u8; 32];
+        fp.copy_from_slice(&rng.bytes(32));
+        Some(fp)
+    } else {
+        None
+    };
+    (OriginSpec { scheme: "https", host, port: if android.is_some() { None } else { port }, android }, rp_id)
 }
 
 pub fn gen_challenge(rng: &mut Rng) -> Vec<u8> {
@@ -651,7 +687,11 @@ pub fn gen_cd(rng: &mut Rng) -> CdMode {
             rng.shuffle(&mut m);
             CdMode::ExtraMap(m)
         }
-        2 => CdMode::CustomHash(rng.bytes(32)),
+        2 => {
+            // the caller's hash is opaque: mostly SHA-256 sized, sometimes another digest's length
+            let l = *rng.pick(&[32usize, 32, 32, 20, 48, 64, 0, 33]);
+            CdMode::CustomHash(rng.bytes(l))
+        }
         3 => CdMode::OptVec(Some(rng.bytes(32))),
         4 => CdMode::OptVec(None),
         _ => CdMode::Default,
@@ -758,7 +798,10 @@ pub fn gen_make(rng: &mut Rng) -> MakeSpec {
     MakeSpec {
         rp_id: rp.to_string(),
         user_id,
-        cdh: rng.bytes(32),
+        cdh: {
+            let l = *rng.pick(&[32usize, 32, 32, 20, 48, 64, 0, 33]);
+            rng.bytes(l)
+        },
         algs: ALG_LISTS[1 + rng.below(ALG_LISTS.len() - 1)].to_vec(),
         unknown_type_for_unsupported: rng.chance(1, 4),
         exclude: if rng.chance(1, 5) { Some(gen_idrefs(rng)) } else { None },
@@ -776,7 +819,10 @@ pub fn gen_get(rng: &mut Rng) -> GetSpec {
     GetSpec {
         rp_of: if rng.chance(3, 5) { Some(rng.below(16)) } else { None },
         rp_id: rp.to_string(),
-        cdh: rng.bytes(32),
+        cdh: {
+            let l = *rng.pick(&[32usize, 32, 32, 20, 48, 64, 0, 33]);
+            rng.bytes(l)
+        },
         allow: match rng.below(5) {
             0 => AllowSpec::Absent,
             1 => AllowSpec::Empty,
